@@ -964,12 +964,17 @@ func (r *Raft) leaderLoop() {
 // verifyLeader must be called from the main thread for safety.
 // Causes the followers to attempt an immediate heartbeat.
 func (r *Raft) verifyLeader(v *verifyFuture) {
-	// Current leader always votes for self
-	v.votes = 1
+	// Current leader votes for self, but only while it is a voter: a leader
+	// that is being demoted or removed still leads until that configuration
+	// commits, without counting towards the quorum.
+	v.votes = 0
+	if hasVote(r.configurations.latest, r.localID) {
+		v.votes = 1
+	}
 
 	// Set the quorum size, hot-path for single node
 	v.quorumSize = r.quorumSize()
-	if v.quorumSize == 1 {
+	if v.votes >= v.quorumSize {
 		v.respond(nil)
 		return
 	}
